@@ -132,7 +132,9 @@ fn tweak_field(t: &Tweak) -> usize {
 fn boundary_tweaks() -> Vec<Tweak> {
     let m = usize::MAX;
     let mut v = vec![];
-    for x in [0usize, 31, 32, 33, 4096, 32767, 32768, 65535, 65536, (1 << 32) + 4096, m] {
+    // range boundaries, and block sizes on / next to the frame header's block-size code classes
+    // (192, 576*2^n incl. the multiples 9216 and 18432 that are not coded members, 256*2^n)
+    for x in [0usize, 31, 32, 33, 4096, 32767, 32768, 65535, 65536, (1 << 32) + 4096, m, 192, 255, 256, 257, 576, 1152, 2304, 4608, 9216, 18432, 8192, 16384] {
         v.push(Tweak::Block(x));
     }
     for x in [0usize, 1, 4, 5, 255, 256, m] {
@@ -160,7 +162,7 @@ fn boundary_tweaks() -> Vec<Tweak> {
     for x in [0usize, 1, 2, m] {
         v.push(Tweak::Mae(x));
     }
-    for w in [None, Some(1usize), Some(2), Some(32)] {
+    for w in [None, Some(1usize), Some(2), Some(32), Some(1025), Some(usize::MAX / 2 + 1), Some(usize::MAX)] {
         v.push(Tweak::Workers(w));
     }
     v.push(Tweak::Multithread(true));
@@ -209,6 +211,14 @@ fn probe_corpus(block: usize) -> Vec<Arc<Audio>> {
             }
         }
         v.push(Arc::new(Audio { channels: *ch, bps: *bps, rate: 44100, samples, recipe: format!("probe{i}:{fam}") }));
+    }
+    if block > 1200 {
+        // the probes above never fill a large block: one cheap input of exactly one full block plus
+        // a 5-sample tail, so that a frame of `block` samples is really emitted for every accepted
+        // block size
+        let l = block + 5;
+        let samples: Vec<i32> = (0..l).map(|t| ((t * 37) % 201) as i32 - 100 + if t % 97 == 0 { 3000 } else { 0 }).collect();
+        v.push(Arc::new(Audio { channels: 1, bps: 16, rate: 48000, samples, recipe: "probe12:full_block+5".into() }));
     }
     v
 }
